@@ -90,6 +90,16 @@ def calcRes (s : DState) (r : Except Err (Prism Float × String)) : DState × St
 
 def step (s : DState) (toks : List String) : DState × String :=
   match toks with
+  -- ---------------- C17 unit conversions: uc <method> dcM ecJ kB NA | x...
+  | "uc" :: meth :: dcM :: ecJ :: kB :: NA :: xs =>
+      let dcM := hexToFloat dcM; let ecJ := hexToFloat ecJ; let kB := hexToFloat kB; let NA := hexToFloat NA
+      let x := hexs xs
+      let f : Float → Float :=
+        if meth = "K" then ucKelvin ecJ kB else if meth = "C" then ucCelsius ecJ kB
+        else if meth = "invA" then ucInvAngstrom dcM else if meth = "invnm" then ucInvNanometer dcM
+        else ucConcentration dcM NA
+      (s, fl (x.map f).toList)
+  | "uc.phi" :: d :: xs => (s, fl ((hexs xs).map fun rho => ucVolumeFraction rho (hexToFloat d)).toList)
   -- ---------------- object-identity model of System -> PRISM (C16)
   | ["w.new", n, kT] => ({ s with world := World.init n.toNat! (hexToFloat kT) }, "ok")
   | "w.op" :: rest =>
